@@ -18,8 +18,8 @@
     Faithful to the code as it is.  [fixed_F1 = false] is the pinned
     grpcv3.RequestContext (finding C13-F1), [fixed_F1 = true] the candidate
     repair fixes/C13-F1.diff (cache the view as the HTTP context does);
-    [fixed_F4] likewise for finding C13-F4 / fixes/C13-F4.diff (decoded Path and
-    RawPath in the Envoy context).
+    [fixes] collects one flag per finding that has a (candidate) repair:
+    F1 (fix: b2286d8), F2, F3, F4, F6, F7 (fixes/C13-Fx.diff).
 
     A *logical request* [lreq] is what the property quantifies over; [mk_http]
     / [mk_envoy] say what each entry point receives for it (net/http's parser;
@@ -175,6 +175,38 @@ Definition build_http (L : lreq) : rview :=
      rv_path := GoUrl.unescape_or_empty (v_rawpath v); rv_rawpath := v_rawpath v;
      rv_query := v_query v; rv_caps := None; rv_ips := v_ips v |}.
 
+(** Which of the recorded findings are repaired in the tree that is modelled ([false] = the code as
+    pinned).  Every definition below that depends on a finding takes the flag; the theorems hold for
+    every combination. *)
+Record fixes := {
+  fx_F1 : bool;   (* fixes/C13-F1.diff (fix: b2286d8): the Envoy context caches the view *)
+  fx_F2 : bool;   (* fixes/C13-F2.diff: grpcv3 Header(name) canonicalises the name *)
+  fx_F3 : bool;   (* fixes/C13-F3.diff: decision and proxy hand all values of a pipeline header over *)
+  fx_F4 : bool;   (* fixes/C13-F4.diff: decoded Path and RawPath in the Envoy context *)
+  fx_F6 : bool;   (* fixes/C13-F6.diff: grpcv3 Header("Host") gives the request host *)
+  fx_F7 : bool    (* fixes/C13-F7.diff: grpcv3 Body() of an empty body is "" *)
+}.
+
+Definition pinned : fixes :=
+  {| fx_F1 := false; fx_F2 := false; fx_F3 := false; fx_F4 := false; fx_F6 := false; fx_F7 := false |}.
+Definition all_fixed : fixes :=
+  {| fx_F1 := true; fx_F2 := true; fx_F3 := true; fx_F4 := true; fx_F6 := true; fx_F7 := true |}.
+Definition set_F1 (b : bool) (f : fixes) : fixes :=
+  {| fx_F1 := b; fx_F2 := fx_F2 f; fx_F3 := fx_F3 f; fx_F4 := fx_F4 f; fx_F6 := fx_F6 f; fx_F7 := fx_F7 f |}.
+Definition set_F2 (b : bool) (f : fixes) : fixes :=
+  {| fx_F1 := fx_F1 f; fx_F2 := b; fx_F3 := fx_F3 f; fx_F4 := fx_F4 f; fx_F6 := fx_F6 f; fx_F7 := fx_F7 f |}.
+Definition set_F3 (b : bool) (f : fixes) : fixes :=
+  {| fx_F1 := fx_F1 f; fx_F2 := fx_F2 f; fx_F3 := b; fx_F4 := fx_F4 f; fx_F6 := fx_F6 f; fx_F7 := fx_F7 f |}.
+Definition set_F4 (b : bool) (f : fixes) : fixes :=
+  {| fx_F1 := fx_F1 f; fx_F2 := fx_F2 f; fx_F3 := fx_F3 f; fx_F4 := b; fx_F6 := fx_F6 f; fx_F7 := fx_F7 f |}.
+Definition set_F6 (b : bool) (f : fixes) : fixes :=
+  {| fx_F1 := fx_F1 f; fx_F2 := fx_F2 f; fx_F3 := fx_F3 f; fx_F4 := fx_F4 f; fx_F6 := b; fx_F7 := fx_F7 f |}.
+Definition set_F7 (b : bool) (f : fixes) : fixes :=
+  {| fx_F1 := fx_F1 f; fx_F2 := fx_F2 f; fx_F3 := fx_F3 f; fx_F4 := fx_F4 f; fx_F6 := fx_F6 f; fx_F7 := b |}.
+
+(** /repo today: C13-F1 repaired (fix: b2286d8) *)
+Definition repo_now : fixes := set_F1 true pinned.
+
 (** grpcv3.NewRequestContext + Request().  [fixed_F4 = false]: the pinned code puts the path as received
     (escaped) into URL.Path and leaves RawPath empty (finding C13-F4); [fixed_F4 = true]: the candidate
     repair fixes/C13-F4.diff (Path = PathUnescape(path), RawPath = path, as extractURL does for HTTP). *)
@@ -329,11 +361,19 @@ Section Oracles.
     {| a_header := header_http h (l_host L); a_headers := headers_http h (l_host L);
        a_cookie := http_cookie (values "Cookie" h); a_body := body_http h (l_host L) (l_body L) |}.
 
-  (** grpcv3.RequestContext: Header (a raw map lookup), Headers, Cookie, Body *)
-  Definition acc_envoy (E : ereq) : accessors :=
+  (** grpcv3.RequestContext: Header (pinned: a raw map lookup), Headers, Cookie, Body (pinned: the
+      decoder is asked even when there is no body).  Body() itself always reads the Content-Type
+      through Header("Content-Type"). *)
+  Definition header_envoy (fx : fixes) (m : list (string * string)) (host name : string) : string :=
+    let key := if fx_F2 fx then canon name else name in
+    if fx_F6 fx && String.eqb key "Host" then host else assoc key m.
+
+  Definition acc_envoy (fx : fixes) (E : ereq) : accessors :=
     let m := canonicalize_headers (e_hdrs E) in
-    {| a_header := fun name => assoc name m; a_headers := m;
-       a_cookie := envoy_cookie m; a_body := decode (assoc "Content-Type" m) (e_body E) |}.
+    {| a_header := header_envoy fx m (e_host E); a_headers := m;
+       a_cookie := envoy_cookie m;
+       a_body := if fx_F7 fx && String.eqb (e_body E) "" then VJson json_empty_string
+                 else decode (header_envoy fx m (e_host E) "Content-Type") (e_body E) |}.
 
   (* ---------------------------------------------------------------- queries *)
 
@@ -402,13 +442,19 @@ Section Oracles.
 
   Record rule := { r_id : string; r_slashes : slashes; r_prog : prog }.
 
-  (** rules.unescape *)
+  (** rules.containsEncodedSlash (since fix: a779db8 both spellings count) *)
+  Definition contains_encoded_slash (p : string) : bool := GoUrl.contains "%2F" p || GoUrl.contains "%2f" p.
+
+  (** rules.unescape: both spellings of an encoded slash are protected by a placeholder (a
+      strings.Replacer with the two patterns; neither pattern nor the placeholder can overlap the other,
+      so two passes give the same), the rest is decoded, the placeholder becomes "%2F" *)
   Definition escaped_slash_marker := "$$$escaped-slash$$$".
   Definition unescape_capture (s : slashes) (v : string) : string :=
     match s with
     | SOn => GoUrl.unescape_or_empty v
     | _ => GoUrl.replace_all escaped_slash_marker "%2F"
-             (GoUrl.unescape_or_empty (GoUrl.replace_all "%2F" escaped_slash_marker v))
+             (GoUrl.unescape_or_empty
+                (GoUrl.replace_all "%2f" escaped_slash_marker (GoUrl.replace_all "%2F" escaped_slash_marker v)))
     end.
 
   (** what rule lookup reads of the view (repository.FindRule: RawPath if set, else Path; the route
@@ -427,7 +473,7 @@ Section Oracles.
     match s with
     | SOn => Some {| rv_method := rv_method v; rv_scheme := rv_scheme v; rv_host := rv_host v; rv_path := rv_path v;
                      rv_rawpath := ""; rv_query := rv_query v; rv_caps := rv_caps v; rv_ips := rv_ips v |}
-    | SOff => if GoUrl.contains "%2F" (rv_rawpath v) then None else Some v
+    | SOff => if contains_encoded_slash (rv_rawpath v) then None else Some v
     | SNoDecode => Some v
     end.
 
@@ -467,8 +513,8 @@ Section Oracles.
     end.
 
   Definition exec_http (L : lreq) : outcome := execute true (build_http L) (acc_http L).
-  Definition exec_envoy (fixed_F1 fixed_F4 : bool) (L : lreq) : outcome :=
-    execute fixed_F1 (build_envoy fixed_F4 (mk_envoy L)) (acc_envoy (mk_envoy L)).
+  Definition exec_envoy (fx : fixes) (L : lreq) : outcome :=
+    execute (fx_F1 fx) (build_envoy (fx_F4 fx) (mk_envoy L)) (acc_envoy fx (mk_envoy L)).
 
   (* ---------------------------------------------------------------- Finalize: the hand-over to the upstream side *)
 
@@ -484,17 +530,22 @@ Section Oracles.
       as it is put on the wire *)
   Record handover := { ho_headers : list (string * string); ho_cookies : list (string * string) }.
 
-  (** decision: rw.Header().Set(k, uh.Get(k)); http.SetCookie (invalid names are dropped, values sanitised) *)
-  Definition finalize_decision (adds : list add) : handover :=
+  (** decision: rw.Header().Set(k, uh.Get(k)) — the first value only; after fixes/C13-F3.diff all values
+      (as separate header lines, projected to their ","-join); http.SetCookie (invalid names are
+      dropped, values sanitised) *)
+  Definition handed_value (fixed_F3 : bool) (uh : hdrs) (k : string) : string :=
+    if fixed_F3 then join "," (values k uh) else get k uh.
+
+  Definition finalize_decision (fixed_F3 : bool) (adds : list add) : handover :=
     let uh := upstream_headers adds in
-    {| ho_headers := map (fun k => (k, get k uh)) (keys_of uh []);
+    {| ho_headers := map (fun k => (k, handed_value fixed_F3 uh k)) (keys_of uh []);
        ho_cookies := flat_map (fun kv => if cookie_name_valid (fst kv) then [(fst kv, sanitize_cookie_value (snd kv))] else [])
                               (upstream_cookies adds) |}.
 
-  (** proxy: proxyReq.Out.Header.Set(k, uh.Get(k)); Out.AddCookie (values sanitised; names only lose CR/LF) *)
-  Definition finalize_proxy (adds : list add) : handover :=
+  (** proxy: proxyReq.Out.Header.Set(k, uh.Get(k)) (likewise); Out.AddCookie (values sanitised; names only lose CR/LF) *)
+  Definition finalize_proxy (fixed_F3 : bool) (adds : list add) : handover :=
     let uh := upstream_headers adds in
-    {| ho_headers := map (fun k => (k, get k uh)) (keys_of uh []);
+    {| ho_headers := map (fun k => (k, handed_value fixed_F3 uh k)) (keys_of uh []);
        ho_cookies := map (fun kv => (fst kv, sanitize_cookie_value (snd kv))) (upstream_cookies adds) |}.
 
   (** envoy: strings.Join(upstreamHeaders.Values(k), ","); one Cookie header "k=v;k=v" without any sanitising *)
@@ -510,10 +561,9 @@ Section Oracles.
     {| s_err := o_err o; s_rule := match o_err o with None => o_rule o | Some _ => "" end;
        s_handover := match o_err o with None => Some (fin (o_adds o)) | Some _ => None end |}.
 
-  Definition serve_decision (L : lreq) : served := serve_with finalize_decision (exec_http L).
-  Definition serve_proxy (L : lreq) : served := serve_with finalize_proxy (exec_http L).
-  Definition serve_envoy (fixed_F1 fixed_F4 : bool) (L : lreq) : served :=
-    serve_with finalize_envoy (exec_envoy fixed_F1 fixed_F4 L).
+  Definition serve_decision (fx : fixes) (L : lreq) : served := serve_with (finalize_decision (fx_F3 fx)) (exec_http L).
+  Definition serve_proxy (fx : fixes) (L : lreq) : served := serve_with (finalize_proxy (fx_F3 fx)) (exec_http L).
+  Definition serve_envoy (fx : fixes) (L : lreq) : served := serve_with finalize_envoy (exec_envoy fx L).
 End Oracles.
 
 (* ------------------------------------------------------------------ the mechanisms of the correspondence harness as programs *)
